@@ -70,6 +70,15 @@ PINS = [
     'mesonbuild.interpreter.interpreter:Interpreter.func_unset_variable',
     'mesonbuild.interpreter.interpreter:Interpreter.func_range',
     'mesonbuild.interpreter.interpreter:Interpreter.func_assert',
+    'mesonbuild.interpreterbase.interpreterbase:InterpreterBase._evaluate_codeblock',
+    'mesonbuild.interpreterbase.interpreterbase:InterpreterBase._evaluate_subdir',
+    'mesonbuild.interpreterbase.interpreterbase:InterpreterBase._resolve_subdir',
+    'mesonbuild.interpreter.interpreter:Interpreter.func_subdir',
+    'mesonbuild.interpreter.interpreter:Interpreter.func_subdir_done',
+    'mesonbuild.interpreter.interpreter:Interpreter.func_subproject',
+    'mesonbuild.interpreter.interpreter:Interpreter.do_subproject',
+    'mesonbuild.interpreter.interpreter:Interpreter._do_subproject_meson',
+    'mesonbuild.interpreter.interpreterobjects:SubprojectHolder',
     'mesonbuild.mparser:Parser',
     'mesonbuild.mparser:StringNode',
     'mesonbuild.utils.universal:underscorify',
@@ -82,8 +91,13 @@ TRUSTED = [
     'programs whose values grow beyond what the list-based model evaluates within 4 GiB / the time limit '
     '(CPython OverflowError/MemoryError/RecursionError, or model driver out of memory) are counted and skipped',
     'not modelled (model answers UNSUPPORTED, never compared): builtin objects (meson, *_machine), functions other than '
-    'message/set_variable/get_variable/is_variable/unset_variable/range/assert, subdir()/subproject(), RangeHolder inside '
-    'containers and range == range (object identity), str.format() of non-printable objects, int.to_string(fill: <bool>)',
+    'message/set_variable/get_variable/is_variable/unset_variable/range/assert/subdir/subdir_done/subproject, keyword '
+    'arguments of subdir()/subproject() (if_found, required, default_options, version), wrap resolution of a subproject '
+    'without a directory, paths os.path.realpath would normalise, RangeHolder / SubprojectHolder inside containers and '
+    '== between two of them (object identity), str.format() of non-printable objects, int.to_string(fill: <bool>)',
+    'multi-file programs: the in-process Interpreter evaluates the top-level block with evaluate_codeblock (not run()), '
+    'the harness rewrites the scratch source tree and forgets directory/subproject records between programs as a new '
+    '`meson setup` would; a subproject root file is modelled without its project() call; fuel 2*files+2 bounds nesting',
 ]
 
 NCPU = max(1, min(16, os.cpu_count() or 1))
@@ -177,7 +191,11 @@ def _task(t: T.Tuple[str, int, int, bool]) -> dict:
             except Exception:
                 res['parse_errors'] += 1
                 continue
-            ans, viol = c01_oracle.run_stepwise(im, code, ast, files)
+            try:
+                ans, viol = c01_oracle.run_stepwise(im, code, ast, files)
+            except (MemoryError, RecursionError):
+                res['skipped'] = res.get('skipped', 0) + 1
+                continue
             for key, what, case in viol:
                 case['files'] = files
             res['viol'] += viol
@@ -196,7 +214,11 @@ def _task(t: T.Tuple[str, int, int, bool]) -> dict:
         except c01_impl.Unserialisable:
             res['unser'] += 1
             continue
-        ans, viol = c01_oracle.run_stepwise(im, code, ast)
+        try:
+            ans, viol = c01_oracle.run_stepwise(im, code, ast)
+        except (MemoryError, RecursionError):   # a value too large to snapshot/print under the worker's limit
+            res['skipped'] = res.get('skipped', 0) + 1
+            continue
         res['viol'] += viol
         res['cases'].append((sub, code, line, ans))
     return res
@@ -218,8 +240,8 @@ def plan(ctx: Ctx) -> T.List[T.Tuple[str, int, int, bool]]:
                                                    ('methods', rng.getrandbits(32), 0, full),
                                                    ('functions', rng.getrandbits(32), 0, full)]
     chunk = 250
-    for kind, total in (('rand', ctx.scale(14000, 40000)), ('mutant', ctx.scale(9000, 25000)),
-                        ('alias', ctx.scale(4000, 10000)), ('tree', ctx.scale(3000, 10000))):
+    for kind, total in (('rand', ctx.scale(10000, 40000)), ('mutant', ctx.scale(7000, 25000)),
+                        ('alias', ctx.scale(3000, 10000)), ('tree', ctx.scale(2000, 10000))):
         for _ in range(total // chunk):
             tasks.append((kind, rng.getrandbits(32), chunk, full))
     for name, total, ch in (('short_circuit', ctx.scale(1500, 5000), 250), ('divmod', ctx.scale(3000, 10000), 500),
@@ -377,6 +399,7 @@ def run(ctx: Ctx) -> None:
         cases += r['cases']
         ctx.count(r['n'] + r['oracle_checks'])
         ctx.tag('parse-errors(generated)', r['parse_errors'])
+        ctx.tag('resource-limit(harness)', r.get('skipped', 0))
         ctx.tag('oracle-checks', r['oracle_checks'])
         for key, what, case in r['viol']:
             ctx.violation(key, what, case)
